@@ -261,6 +261,34 @@ pub fn uci_adv() -> Vec<(String, Pats)> {
     v
 }
 
+/// Case-insensitive lists of >= 32 non-empty patterns in which patterns that
+/// are equal after folding, or prefixes of each other after folding, begin
+/// with different cases of the same letter (C11 only).
+pub fn uci_case_dups() -> Vec<(String, Pats)> {
+    let mut v = vec![];
+    // lower first, upper later
+    let mut p: Pats = (b'a'..=b't').map(|c| vec![c, b'x']).collect();
+    p.extend((b'A'..=b'J').map(|c| vec![c, b'x']));
+    p.extend((b'K'..=b'O').map(|c| vec![c]));
+    p.extend((b'P'..=b'R').map(|c| vec![c, b'X', b'y']));
+    v.push(("ci-case-dups-lower-first-38".to_string(), p));
+    // upper first, lower later
+    let mut p: Pats = (b'A'..=b'T').map(|c| vec![c, b'x']).collect();
+    p.extend((b'a'..=b'j').map(|c| vec![c, b'X']));
+    p.extend((b'k'..=b'o').map(|c| vec![c]));
+    p.extend((b'p'..=b'r').map(|c| vec![c, b'x', b'Y']));
+    v.push(("ci-case-dups-upper-first-38".to_string(), p));
+    // exactly 31 / 32 / 33 patterns, one case pair at the end
+    for n in [31usize, 32, 33] {
+        let mut p: Pats = (0..n - 2).map(|i| vec![b'a' + (i % 26) as u8, b'0' + (i / 26) as u8]).collect();
+        p.push(b("zebra"));
+        p.push(b("Zeb"));
+        p.swap(3, n - 2);
+        v.push((format!("ci-case-pair-in-{}", n), p));
+    }
+    v
+}
+
 /// The symbols that occur in a pattern list (plus opposite cases if `ci`),
 /// sorted.
 pub fn sigma(pats: &Pats, ci: bool) -> Vec<u8> {
